@@ -21,6 +21,7 @@ import (
 	"os/exec"
 	"path/filepath"
 	"strings"
+	"time"
 
 	"github.com/facebookincubator/dns/dnsrocks/db"
 	"github.com/facebookincubator/dns/dnsrocks/dnsdata"
@@ -1079,14 +1080,23 @@ func runFileCases(a *hlib.Args, cases []*c03case, onlyCDB bool) error {
 		return err
 	}
 	defer os.RemoveAll(dir)
+	tc := time.Now()
 	bks, err := compileAll(dir, cases[0].File, onlyCDB)
 	if err != nil {
 		return err
 	}
-	defer closeAll(bks)
+	fmt.Fprintf(os.Stderr, "TIMING compile %v\n", time.Since(tc))
+	defer func() { tz := time.Now(); closeAll(bks); fmt.Fprintf(os.Stderr, "TIMING close %v\n", time.Since(tz)) }()
+	t0 := time.Now()
 	for _, c := range cases {
+		t1 := time.Now()
 		runDB(dir, c, bks)
+		if d := time.Since(t1); d > 200*time.Millisecond {
+			b, _ := json.Marshal(c)
+			fmt.Fprintf(os.Stderr, "SLOW %v %s\n", d, b)
+		}
 	}
+	fmt.Fprintf(os.Stderr, "TIMING queries %v\n", time.Since(t0))
 	return nil
 }
 
